@@ -32,7 +32,7 @@ func (ck *Checker) stubOverlay(scratch string, in *Instance) (map[string]string,
 	for name, spec := range ck.eng.nativeStubs {
 		enabled := false
 		for _, s := range in.Stubs {
-			if _, ok := ck.eng.intrinsics[s+":"+name]; ok {
+			if _, ok := ck.eng.intrinsics[s+":"+name]; ok && s == spec.set {
 				enabled = true
 			}
 		}
